@@ -85,8 +85,9 @@ func loadWorld(repo string, patterns []string, extDir string) (*World, error) {
 			continue
 		}
 		dir := filepath.Dir(p.GoFiles[0])
-		cf := filepath.Join(dir, "zz_verif_contracts.go")
-		if _, err := os.Stat(cf); err == nil {
+		cfs, _ := filepath.Glob(filepath.Join(dir, "zz_verif_contracts*.go"))
+		sort.Strings(cfs)
+		for _, cf := range cfs {
 			c, err := parseContractFile(cf, p.PkgPath)
 			if err != nil {
 				return nil, err
@@ -103,7 +104,7 @@ func loadWorld(repo string, patterns []string, extDir string) (*World, error) {
 		if info.IsDir() && (info.Name() == ".git" || info.Name() == "vendor" || info.Name() == "testdata") {
 			return filepath.SkipDir
 		}
-		if info.Name() != "zz_verif_contracts.go" {
+		if !strings.HasPrefix(info.Name(), "zz_verif_contracts") || !strings.HasSuffix(info.Name(), ".go") {
 			return nil
 		}
 		rel, _ := filepath.Rel(repo, filepath.Dir(path))
@@ -430,6 +431,20 @@ func (w *World) stmtTextAt(pos token.Pos) string {
 					w.stmtPos = map[token.Pos]token.Pos{}
 				}
 				w.stmtPos[pos] = n.Pos()
+			case *ast.IfStmt:
+				// the condition of an if statement: "if cond {" (first line only);
+				// positions inside the init statement belong to that statement
+				is := n.(*ast.IfStmt)
+				if pos >= is.Cond.Pos() && pos < is.Cond.End() {
+					t = w.nodeText(n)
+					if i := strings.Index(t, "\n"); i >= 0 {
+						t = t[:i]
+					}
+					if w.stmtPos == nil {
+						w.stmtPos = map[token.Pos]token.Pos{}
+					}
+					w.stmtPos[pos] = n.Pos()
+				}
 			}
 			if t != "" {
 				break
@@ -459,6 +474,17 @@ func (w *World) stmtOrdinal(fn *ssa.Function, sp token.Pos, txt string) int {
 		switch x.(type) {
 		case *ast.AssignStmt, *ast.IncDecStmt, *ast.ReturnStmt, *ast.ExprStmt, *ast.DeferStmt, *ast.GoStmt, *ast.SendStmt:
 			if normText(w.nodeText(x)) == txt {
+				n++
+				if x.Pos() == sp {
+					found = n
+				}
+			}
+		case *ast.IfStmt:
+			t := w.nodeText(x)
+			if i := strings.Index(t, "\n"); i >= 0 {
+				t = t[:i]
+			}
+			if normText(t) == txt {
 				n++
 				if x.Pos() == sp {
 					found = n
